@@ -1,6 +1,5 @@
 """C14 — the block-synchronized state machine runs every phase in its block window."""
 META = {
-    "disabled": True,
     "level": "model_checking",
     "text": "TLC exhaustively checks a step-by-step model of SyncMachine.Execute/stateTransition (every protocol of up to 3-4 states "
             "with delays 0-2 and active periods 0-2 including silent states, every interleaving of block arrivals, deliveries, "
